@@ -33,6 +33,9 @@ type Gen struct {
 	NilBody bool
 	pfx     string
 	PLen    int // >=0: prefixed text has exactly this many (symbolic) bytes
+	// FixLen != nil: every text has the concrete length FixLen(maximal length) with symbolic content
+	// (fallback when the code loops on a text length: reduced bound, stated in the evidence)
+	FixLen func(maxLen int) int
 }
 
 func (g *Gen) e() *Engine { return g.w.e }
@@ -40,6 +43,15 @@ func (g *Gen) e() *Engine { return g.w.e }
 // symText: text of symbolic length 0..maxLen with array-backed content.
 func (g *Gen) symText(s *State, name string, maxLen int) *SVal {
 	e := g.e()
+	if g.FixLen != nil {
+		n := g.FixLen(maxLen)
+		arr := ArrVar(e.freshName(name + "_arr"))
+		vec := make([]*Term, n)
+		for i := range vec {
+			vec[i] = Select(arr, CI(int64(i)))
+		}
+		return &SVal{K: 's', S: VecBytes(vec), SMax: maxLen}
+	}
 	L := e.boundedVar(s, name+"_len", 0, int64(maxLen))
 	arr := ArrVar(e.freshName(name + "_arr"))
 	b := &Bytes{Len: L}
